@@ -7,6 +7,8 @@ mod precompiles;
 mod utils;
 
 pub use engine::BRC20ProgEngine;
+#[cfg(feature = "verif-hooks")]
+pub use hardforks::{get_evm_spec, use_rlp_hash_for_tx_hash};
 pub use precompiles::validate_bitcoin_rpc_status;
 pub use utils::{get_evm_address_from_pkscript, TxInfo};
 
